@@ -1,5 +1,6 @@
 import UtlsVerif.QuicLemmas
 import UtlsVerif.QuicSys
+import UtlsVerif.QuicQueue
 /-!
 # C23 — QUIC clients complete through the event API and never hang
 
@@ -35,6 +36,12 @@ the D15 repair) does not satisfy it, and a stuck state is then reachable.
   was delivered.
 * `quic_hello_shape` — a QUIC ClientHello has an empty legacy session id and no compatibility CCS
   (guards regenerated from `ApplyPreset` / `makeClientHello` / `sendDummyChangeCipherSpec`).
+* `no_bytes_lost`, `no_bytes_lost_drained`, `bytes_lost_without_clear`, `utls_no_bytes_lost` — the
+  event queue (`QuicQueue.lean`): for every interleaving of handshake writes, other events and
+  `NextEvent` calls, at every level the bytes handed out by `NextEvent` followed by the bytes still
+  queued are exactly the bytes written; once `NextEvent` reports `QUICNoEvent` nothing is queued.
+  This needs `NextEvent` to overwrite the slot it hands out with `QUICEvent{}` (regenerated shape
+  fact): without it a later write of the same level is coalesced into the consumed slot and lost.
 * `api_shapes` — the channel/mutex operation sequences of `Start`, `HandleData`, `Close`,
   `SetTransportParameters`, `NextEvent`, `quicWaitForSignal` in the source are the ones the
   transition system transcribes.
@@ -426,6 +433,57 @@ theorem api_shapes :
     Gen.QuicShape.setTPOps = expectedSetTPOps ∧
     Gen.QuicShape.nextEventOps = expectedNextEventOps ∧
     Gen.QuicShape.waitOps = expectedWaitOps := by decide
+
+/-! ## the event queue -/
+
+open QuicQueue in
+/-- **No handshake bytes are lost or duplicated by the event queue**: for every sequence of
+`quicWriteCryptoData`s, other event emissions and `NextEvent` calls from the empty queue, and every
+level, the data of the WriteData events returned by `NextEvent` (in order) followed by the data still
+queued equals the concatenation of everything written at that level. -/
+theorem no_bytes_lost (ops : List QuicQueue.Op) (l : Nat) :
+    delivered l (run true ops {}).2 ++ pendingBytes l (run true ops {}).1 = written l ops := by
+  have := (run_spec ops {} clean_init l).2
+  simpa [pendingBytes, slotsBytes] using this
+
+open QuicQueue in
+/-- … and when the last operation is a `NextEvent` that reported `QUICNoEvent` (the application
+drained the queue), everything written has been handed out. -/
+theorem no_bytes_lost_drained (ops : List QuicQueue.Op) (l : Nat)
+    (h : (nextEvent true (run true ops {}).1).2 = none) :
+    delivered l (run true ops {}).2 = written l ops := by
+  have h1 := no_bytes_lost ops l
+  have hc := (run_spec ops {} clean_init l).1
+  have h2 := (next_spec (run true ops {}).1 hc l).2.2 h
+  rw [h2, List.append_nil] at h1
+  exact h1
+
+open QuicQueue in
+/-- Without the slot overwrite the statement is false: write, NextEvent, write at the same level —
+the second write is coalesced into the slot already handed out; NextEvent then reports NoEvent. -/
+theorem bytes_lost_without_clear :
+    let ops := [QuicQueue.Op.write 0 [1], .next, .write 0 [2], .next]
+    (run false ops {}).2 = [some ⟨.write, 0, [1]⟩, none] ∧
+    delivered 0 (run false ops {}).2 ++ pendingBytes 0 (run false ops {}).1 ≠ written 0 ops ∧
+    (run true ops {}).2 = [some ⟨.write, 0, [1]⟩, some ⟨.write, 0, [2]⟩] := by decide
+
+open QuicQueue in
+/-- non-vacuity: coalescing of unconsumed data does happen (two writes, one event), levels are
+kept apart, other events are kept in order. -/
+example :
+    (run true [.write 0 [1, 2], .write 0 [3], .emit 2 2 [9], .write 2 [4], .write 0 [5], .next, .next, .next, .next, .next] {}).2 =
+      [some ⟨.write, 0, [1, 2, 3]⟩, some ⟨.other 2, 2, [9]⟩, some ⟨.write, 2, [4]⟩, some ⟨.write, 0, [5]⟩, none] := by decide
+
+/-- The code as it is now: `NextEvent` overwrites the returned slot with `QUICEvent{}` and
+`quicWriteCryptoData` coalesces only into a last slot of the same kind and level (regenerated shape
+facts), hence `no_bytes_lost` is about the queue the client really has. -/
+theorem utls_no_bytes_lost (ops : List QuicQueue.Op) (l : Nat) :
+    Gen.QuicShape.nextEventClearsSlot = true ∧ Gen.QuicShape.writeCoalescesLastSameLevel = true ∧
+    QuicQueue.delivered l (QuicQueue.run Gen.QuicShape.nextEventClearsSlot ops {}).2 ++
+      QuicQueue.pendingBytes l (QuicQueue.run Gen.QuicShape.nextEventClearsSlot ops {}).1 = QuicQueue.written l ops := by
+  have h : Gen.QuicShape.nextEventClearsSlot = true := by decide
+  refine ⟨h, by decide, ?_⟩
+  rw [h]; exact no_bytes_lost ops l
 
 /-! ## the theorems for the code as it is now -/
 
